@@ -202,6 +202,21 @@ example : deserializeSpendJournalEntry C0 [0x8b,0x99,0x70,0x00,0x91,0xf2,0x0f,0x
          ⟨34405000000, [0x76,0xa9,0x14,0x6e,0xdb,0xc6,0xc4,0xd3,0x1b,0xae,0x9f,0x1c,0xcc,0x38,0x53,0x8a,0x11,0x4b,0xf4,
             0x2d,0xe6,0x5e,0x86,0x88,0xac], 100024, false⟩] := by decide
 
+/-! ### utxo set key -/
+
+/-- `outpointKey` is `<32-byte hash><VLQ index>` and the index reads back for every `uint32`. -/
+theorem outpointKey_format_roundtrip (hash : List UInt8) (idx : Nat) (h : hash.length = 32) (hi : idx < 2 ^ 32) :
+    outpointKey hash idx = hash ++ vlq idx ∧
+    deserializeVLQ ((outpointKey hash idx).drop 32) = (idx, serializeSizeVLQ idx) ∧
+    (outpointKey hash idx).length = 32 + serializeSizeVLQ idx := by
+  unfold outpointKey
+  rw [Lemmas.copyInto_exact 32 _ h]
+  refine ⟨by rw [Lemmas.putVLQ_eq_spec], ?_, ?_⟩
+  · rw [List.drop_left' h]
+    have := Lemmas.deserialize_putVLQ idx (by omega) []
+    rwa [List.append_nil] at this
+  · rw [List.length_append, h, Lemmas.putVLQ_length]
+
 /-! ### best chain state and block index row -/
 
 /-- `<hash 32><height u32 LE><total txns u64 LE><work sum length u32 LE><work sum big-endian>` round-trips. -/
@@ -252,6 +267,10 @@ theorem deserializeBestChainState_no_panic_partial (ser : List UInt8) (hlen : se
 
 theorem deserializeBlockRow_no_panic (ser : List UInt8) : deserializeBlockRow ser ≠ .panic :=
   Lemmas.blockRow_no_panic ser
+
+/-- The legacy (version 0 format) utxo entry decoder of upgrade.go. -/
+theorem deserializeUtxoEntryV0_no_panic (C : Curve) (ser : List UInt8) (hlen : ser.length < 2 ^ 63) :
+    deserializeUtxoEntryV0 C ser ≠ .panic := Lemmas.utxoV0_no_panic C ser hlen
 
 /-- All decoders at once. -/
 theorem decoders_no_panic (C : Curve) (ser : List UInt8) (shape : List Nat) (hlen : ser.length < 2 ^ 32) :
